@@ -32,6 +32,10 @@ impl<'a> IntoIterator for &'a Inner { type Item = &'a u8; type IntoIter = core::
 impl<'a> IntoIterator for &'a mut Inner { type Item = &'a mut u8; type IntoIter = core::slice::IterMut<'a, u8>; fn into_iter(self) -> Self::IntoIter { self.items.iter_mut() } }
 
 pub type InnerAlias = Inner;
+/// a listed type that mentions a type parameter of the deriving struct, with a distinguishable result
+pub struct Gen<T>(pub T);
+pub static GEN: Gen<u8> = Gen(1);
+impl AsRef<Gen<u8>> for Inner { fn as_ref(&self) -> &Gen<u8> { &GEN } }
 
 #[cfg(kani)]
 pub fn any_inner() -> Inner { Inner { items: kani::any(), other: kani::any(), tag: kani::any() } }
@@ -263,6 +267,16 @@ def as_ref_shapes():
         let decoy_mut = unsafe { core::ptr::addr_of_mut!(DECOY_MUT) } as usize;
         { let m: &mut Inner = rm.as_mut(); assert!(m as *mut Inner as usize == decoy_mut, "a `&mut Inner` field listed as `Inner` must go through the field's own AsMut<Inner>"); }
 """, "a reference-typed field with its referent type listed: forwarded to the field's own impl, not the referent itself")
+    # a generic struct whose selected field does NOT mention the parameter: a listed type that does (forwarded) followed by an alias of the field's
+    # own type (the field itself) - the decision is per listed type (seed C14-generics-flag-sticky-across-listed-types)
+    mk("generic_struct_listed_generic_then_alias", "#[derive(derive_more::AsRef)]\npub struct Tg<T> { #[as_ref(Gen<T>, InnerAlias)] pub sym: Inner, pub tag: T }\n"
+       "#[derive(derive_more::AsRef)]\npub struct Tr<T> { #[as_ref(InnerAlias, Gen<T>)] pub sym: Inner, pub tag: T }",
+       """        let s = Tg { sym: any_inner(), tag: kani::any::<u8>() };
+        assert!(ptr::eq(AsRef::<Gen<u8>>::as_ref(&s), &GEN), "a listed type mentioning T is forwarded to the field's impl");
+        assert!(ptr::eq(AsRef::<Inner>::as_ref(&s), &s.sym), "an alias of the field's own type listed AFTER a generic type must still be the field itself");
+        let r = Tr { sym: any_inner(), tag: kani::any::<u8>() };
+        assert!(ptr::eq(AsRef::<Gen<u8>>::as_ref(&r), &GEN) && ptr::eq(AsRef::<Inner>::as_ref(&r), &r.sym));
+""", "per listed type: forwarded if it mentions a generic parameter, the field itself if it is (an alias of) the field's type - in either order")
     mk("multi_field", D + "pub struct S { #[as_ref] #[as_mut] pub a: Inner, #[as_ref(u32)] #[as_mut(u32)] pub b: Inner, pub c: Side, #[as_ref(forward)] pub d: Side2 }\n"
        "#[derive(Clone, Copy, PartialEq, Debug)]\npub struct Side2(pub [u8; 2]);\nimpl AsRef<[u8; 2]> for Side2 { fn as_ref(&self) -> &[u8; 2] { &self.0 } }",
        """        let mut s = S { a: any_inner(), b: any_inner(), c: any_side(), d: Side2(kani::any()) };
